@@ -22,7 +22,7 @@ theorem adds_strikethrough : AddsInlineRule (ofRuleCfg cfg_core) (ofRuleCfg cfg_
 /-- **`strikethrough` only affects sources containing `~`** -/
 theorem strikethrough_irrelevant (env : Json) (src : Str) (hsrc : CF 126 src) :
     Model.inlineParse (ofRuleCfg cfg_only_strikethrough) env src = Model.inlineParse (ofRuleCfg cfg_core) env src :=
-  inlineParse_irrelevant_rule _ _ _ _ _ _ adds_strikethrough (by decide +kernel) (by decide +kernel) (by decide +kernel)
+  inlineParse_irrelevant_rule _ _ _ _ _ _ adds_strikethrough (by decide +kernel)
     126 (by decide +kernel) env src hsrc
 
 -- non-vacuity: a `~`-free text, both sides; and the hypothesis is necessary
@@ -43,7 +43,7 @@ theorem adds_mark : AddsInlineRule (ofRuleCfg cfg_core) (ofRuleCfg cfg_only_mark
 /-- **`mark` only affects sources containing `=`** -/
 theorem mark_irrelevant (env : Json) (src : Str) (hsrc : CF 61 src) :
     Model.inlineParse (ofRuleCfg cfg_only_mark) env src = Model.inlineParse (ofRuleCfg cfg_core) env src :=
-  inlineParse_irrelevant_rule _ _ _ _ _ _ adds_mark (by decide +kernel) (by decide +kernel) (by decide +kernel)
+  inlineParse_irrelevant_rule _ _ _ _ _ _ adds_mark (by decide +kernel)
     61 (by decide +kernel) env src hsrc
 
 theorem adds_insert : AddsInlineRule (ofRuleCfg cfg_core) (ofRuleCfg cfg_only_insert) "insert"
@@ -54,7 +54,7 @@ theorem adds_insert : AddsInlineRule (ofRuleCfg cfg_core) (ofRuleCfg cfg_only_in
 /-- **`insert` only affects sources containing `^`** -/
 theorem insert_irrelevant (env : Json) (src : Str) (hsrc : CF 94 src) :
     Model.inlineParse (ofRuleCfg cfg_only_insert) env src = Model.inlineParse (ofRuleCfg cfg_core) env src :=
-  inlineParse_irrelevant_rule _ _ _ _ _ _ adds_insert (by decide +kernel) (by decide +kernel) (by decide +kernel)
+  inlineParse_irrelevant_rule _ _ _ _ _ _ adds_insert (by decide +kernel)
     94 (by decide +kernel) env src hsrc
 
 theorem adds_superscript : AddsInlineRule (ofRuleCfg cfg_core) (ofRuleCfg cfg_only_superscript) "superscript"
@@ -65,7 +65,7 @@ theorem adds_superscript : AddsInlineRule (ofRuleCfg cfg_core) (ofRuleCfg cfg_on
 /-- **`superscript` only affects sources containing `^`** -/
 theorem superscript_irrelevant (env : Json) (src : Str) (hsrc : CF 94 src) :
     Model.inlineParse (ofRuleCfg cfg_only_superscript) env src = Model.inlineParse (ofRuleCfg cfg_core) env src :=
-  inlineParse_irrelevant_rule _ _ _ _ _ _ adds_superscript (by decide +kernel) (by decide +kernel) (by decide +kernel)
+  inlineParse_irrelevant_rule _ _ _ _ _ _ adds_superscript (by decide +kernel)
     94 (by decide +kernel) env src hsrc
 
 theorem adds_subscript : AddsInlineRule (ofRuleCfg cfg_core) (ofRuleCfg cfg_only_subscript) "subscript"
@@ -76,7 +76,7 @@ theorem adds_subscript : AddsInlineRule (ofRuleCfg cfg_core) (ofRuleCfg cfg_only
 /-- **`subscript` only affects sources containing `~`** -/
 theorem subscript_irrelevant (env : Json) (src : Str) (hsrc : CF 126 src) :
     Model.inlineParse (ofRuleCfg cfg_only_subscript) env src = Model.inlineParse (ofRuleCfg cfg_core) env src :=
-  inlineParse_irrelevant_rule _ _ _ _ _ _ adds_subscript (by decide +kernel) (by decide +kernel) (by decide +kernel)
+  inlineParse_irrelevant_rule _ _ _ _ _ _ adds_subscript (by decide +kernel)
     126 (by decide +kernel) env src hsrc
 
 theorem adds_url_link : AddsInlineRule (ofRuleCfg cfg_core) (ofRuleCfg cfg_only_url) "url_link"
@@ -87,7 +87,7 @@ theorem adds_url_link : AddsInlineRule (ofRuleCfg cfg_core) (ofRuleCfg cfg_only_
 /-- **`url_link` only affects sources containing `:`** (`:` is one of the needed characters of its pattern) -/
 theorem url_link_irrelevant (env : Json) (src : Str) (hsrc : CF 58 src) :
     Model.inlineParse (ofRuleCfg cfg_only_url) env src = Model.inlineParse (ofRuleCfg cfg_core) env src :=
-  inlineParse_irrelevant_rule _ _ _ _ _ _ adds_url_link (by decide +kernel) (by decide +kernel) (by decide +kernel)
+  inlineParse_irrelevant_rule _ _ _ _ _ _ adds_url_link (by decide +kernel)
     58 (by decide +kernel) env src hsrc
 
 theorem adds_inline_spoiler : AddsInlineRule (ofRuleCfg cfg_core) (ofRuleCfg cfg_only_spoiler) "inline_spoiler"
@@ -98,16 +98,20 @@ theorem adds_inline_spoiler : AddsInlineRule (ofRuleCfg cfg_core) (ofRuleCfg cfg
 /-- **`inline_spoiler` only affects sources containing `>`** (`>` is one of the needed characters of its pattern) -/
 theorem inline_spoiler_irrelevant (env : Json) (src : Str) (hsrc : CF 62 src) :
     Model.inlineParse (ofRuleCfg cfg_only_spoiler) env src = Model.inlineParse (ofRuleCfg cfg_core) env src :=
-  inlineParse_irrelevant_rule _ _ _ _ _ _ adds_inline_spoiler (by decide +kernel) (by decide +kernel) (by decide +kernel)
+  inlineParse_irrelevant_rule _ _ _ _ _ _ adds_inline_spoiler (by decide +kernel)
     62 (by decide +kernel) env src hsrc
 
--- `ruby`: `AddsInlineRule` holds for `core` / `only-ruby` and the pattern needs `[`, `(`, `)`, `]`; `nameOk "ruby"` is
--- false (the fallback of `rubyRe` reads `inlineSpec["ruby"]`), although the regenerated `named` table has `_ruby_re`,
--- so the fallback is dead: relaxing `nameOk` to `name != "ruby" || (cfg.named.lookup "…_ruby_re").isSome` is the fix.
-example : AddsInlineRule (ofRuleCfg cfg_core) (ofRuleCfg cfg_only_ruby) "ruby" (ruleRx (ofRuleCfg cfg_only_ruby) "ruby")
+theorem adds_ruby : AddsInlineRule (ofRuleCfg cfg_core) (ofRuleCfg cfg_only_ruby) "ruby"
+    (ruleRx (ofRuleCfg cfg_only_ruby) "ruby")
     (preOf (ofRuleCfg cfg_only_ruby) "ruby") (postOf (ofRuleCfg cfg_only_ruby) "ruby") :=
   ⟨rfl, by decide +kernel, by decide +kernel, by decide +kernel, by decide +kernel, by decide +kernel⟩
-example : (91 : Nat) ∈ (ruleRx (ofRuleCfg cfg_only_ruby) "ruby").needs := by decide +kernel
+
+/-- **`ruby` only affects sources containing `[`** (its pattern needs `[`, `(`, `)`, `]`).  `nameOk` accepts `ruby`
+because the regenerated `named` table has `_ruby_re`: the fallback of `rubyRe` to `inlineSpec["ruby"]` is dead. -/
+theorem ruby_irrelevant (env : Json) (src : Str) (hsrc : CF 91 src) :
+    Model.inlineParse (ofRuleCfg cfg_only_ruby) env src = Model.inlineParse (ofRuleCfg cfg_core) env src :=
+  inlineParse_irrelevant_rule _ _ _ _ _ _ adds_ruby (by decide +kernel)
+    91 (by decide +kernel) env src hsrc
 
 end Inl
 end Model
